@@ -58,7 +58,8 @@ def trace_part(rep, tier, rnd):
         common = dict(n_clusters=K, max_iter=rnd.choice([2, 3]), learning_rate=rnd.choice([0.05, 0.2]), solver=rnd.choice(["sgd", "adam"]),
                       batch_size=bs, random_state=rnd.randint(0, 9))
         stats = dict(coords=0, judged=0, kinks=0, nonfinite=0, bad=[])
-        ml, cl, f = [[0, 1]], [[2, 3], [1, n - 1]], 0.7
+        # one sample in two constraints of the same kind (0 in two must-links, 2 in two cannot-links) and one in both kinds
+        ml, cl, f = [[0, 1], [0, 4]], [[2, 3], [2, n - 1], [1, 3]], 0.7
         with warnings.catch_warnings():
             warnings.simplefilter("ignore")
             model = B[name](**common)
@@ -78,7 +79,7 @@ def trace_part(rep, tier, rnd):
                     model = B[name](**common)
                     links_of = None
             chk = train.make_direction_check(stats, links_of, rnd=rnd)
-            ev, err = train.record_fit(model, X, None, decorated=False, direction_check=chk)
+            ev, err = train.record_fit(model, X, None, decorated=False, direction_check=chk, ids="match")
         m = dict(family=name, n=n, d=d, K=K, batch_size=bs, decorated=decorated, solver=common["solver"], max_iter=common["max_iter"],
                  judged=stats["judged"], kinks=stats["kinks"])
         rep.case(m, nontrivial=stats["judged"] > 0)
@@ -92,10 +93,14 @@ def trace_part(rep, tier, rnd):
     res = trace.validate("TrainTrace", traces, invariants=["BatchSizeOK"], timeout=3000)
     rep.add_tlc("TrainTrace", res["result"], note=f"{len(traces)} traces with the direction predicate in every Update event")
     rep.traces += len(traces)
+    if traces and not res["accepted"]:
+        raise MachineryError("every recorded fit was rejected by TrainTrace: the direction predicate was never examined")
+    rep.extra["traces_rejected_on_clauses_of_other_properties"] = 0
     for tid in res["rejected"]:
         dg = trace.diagnose("TrainTrace", traces, tid)
         failing = [k for k, v in (dg["diag"] or {}).items() if v is False]
         if "dirok" not in failing and "shapesok" not in failing:
+            rep.extra["traces_rejected_on_clauses_of_other_properties"] += 1
             continue                                 # other clauses are owned by C10 / C06 / C17
         m = meta[tid - 1]
         rep.violation(f"update #{dg['l']} of {m['family']} (K={m['K']}, batch_size={m['batch_size']}, solver={m['solver']}, decorated="
